@@ -94,6 +94,9 @@ func (c *codegen) call(x *ast.CallExpr, want gtype) (string, gtype) {
 		}
 		return c.callFn(k, "", x)
 	case *ast.SelectorExpr:
+		if ff, isFF := c.fnFieldCallee(x); isFF { // code_osap.go
+			return c.fnFieldCall(ff, x)
+		}
 		if sk, srecv, isSP := c.spCalleeOf(x); isSP { // code_opq.go
 			vals, types := c.spCall(sk, srecv, x, false)
 			if len(vals) != 1 {
@@ -984,9 +987,26 @@ func (c *codegen) pathType(v *varInfo, p []string, at ast.Node) gtype {
 	return t
 }
 
+func allPlainIdents(es []ast.Expr) bool {
+	seen := map[string]bool{}
+	for _, e := range es {
+		id, ok := e.(*ast.Ident)
+		if !ok || (id.Name != "_" && seen[id.Name]) {
+			return false
+		}
+		seen[id.Name] = true
+	}
+	return true
+}
+
 func usesIdent(e ast.Expr, names map[string]bool) bool {
 	found := false
 	ast.Inspect(e, func(n ast.Node) bool {
+		if se, ok := n.(*ast.SelectorExpr); ok {
+			// the selector of `X.f` is a field name, not a variable (code_osap.go: `m, o := d[i].m, d[i].o`)
+			found = found || usesIdent(se.X, names)
+			return false
+		}
 		if id, ok := n.(*ast.Ident); ok && names[id.Name] {
 			found = true
 		}
@@ -1034,7 +1054,12 @@ func (c *codegen) assign(x *ast.AssignStmt) []string {
 		var lines []string
 		for i := range x.Lhs {
 			lines = append(lines, c.assign1(x.Lhs[i], x.Rhs[i], def, x)...)
-			if i > 0 && len(c.cur.pre) != 0 {
+			if i > 0 && len(c.cur.pre) != 0 && !(c.phase5 && len(c.cur.mutHoist) == 0 && allPlainIdents(x.Lhs)) {
+				// code_osap.go: when every left side is a plain variable (`m, o := d[i].m, d[i].o`), the
+				// operations that may only PANIC (index, slice, make: Res.bind lines without a rebinding) are
+				// hoisted in front of the whole statement; no right side reads an assigned variable (checked
+				// above) and every panic is the same Res.panic, so their order is immaterial.  (With an element
+				// assignment on the left the hoisted `set` of the second would read the slice before the first.)
 				c.fail(x, "parallel assignment with an operation that may panic or a call with effects")
 			}
 		}
